@@ -34,7 +34,7 @@ BASE_ENCODINGS = ["StandardEncoding", "MacRomanEncoding", "WinAnsiEncoding", "PD
 # unknown base name: EncodingDB falls back to std2unicode
 BASE_ENC_MENU = BASE_ENCODINGS + ["FooEncoding"]
 GLYPHS = ["Aacute", "bullet", "Euro", "fi", "zcaron", "germandbls", "A", "Z", "space", "eacute",
-          "quotedblleft", "endash", "Omega", "one", "ampersand", "ydieresis"]
+          "quotedblleft", "endash", "g123", "one", "ampersand", "ydieresis"]
 STD14 = ["Helvetica", "Times-Roman", "Courier", "Helvetica-Bold"]
 
 # predefined CMaps (name, CIDSystemInfo ordering, sample byte strings); None ordering -> Identity
@@ -352,6 +352,7 @@ class Doc:
         self.page_fonts: List[List[Tuple[str, int, FontDesc]]] = []   # (scope/resname, objid, desc)
         self.page_shows: List[List[Tuple[FontDesc, bytes]]] = []   # in paint order, forms included
         self.names: List[str] = []
+        self.all_objnums: List[int] = []
         self.features: List[str] = []
 
 
@@ -524,6 +525,7 @@ def gen_doc(rng, idx: int) -> Doc:
     objs[PAGES] = pages_obj
     objs[CATALOG] = {"Type": "Catalog", "Pages": Ref(PAGES)}
     d.open_reads = [CATALOG]
+    d.all_objnums = sorted(objs)
 
     # physical form
     form = rng.choice(["plain", "plain", "objstm", "rc4"])
